@@ -33,6 +33,7 @@ import ICal.Lemmas.Codec
 import ICal.Lemmas.Bodies
 import ICal.Lemmas.BodiesDec
 import ICal.Lemmas.BodiesDDD
+import ICal.Lemmas.BodiesMonth
 namespace ICal.C03
 open ICal.Codec
 
@@ -548,5 +549,10 @@ theorem body_vDDDTypes_to_ical (tz : PyRT.PyDateTime → Option Str) (a : Atom) 
 
 theorem body_vPeriod_to_ical (tz : PyRT.PyDateTime → Option Str) (a b : Atom) (ha : Bodies.TzAgrees tz a) (hb : Bodies.TzAgrees tz b) :
     Bodies.periodToP tz a b = .ok (vPeriodTo a b) := Bodies.period_to_eq tz a b ha hb
+
+/-- the regenerated `vMonth.__new__` on a str (`vMonth.from_ical(t)` is `cls(t)`) is the model's `vMonthNew` -/
+theorem body_vMonth_new (t : Str) :
+    Gen.BodiesDec.vMonth_new (month := t) (params := ()) (new_int := Bodies.moNew) (set_leap := Bodies.moSetLeap)
+      (params_of := fun _ => ()) (set_params := fun m _ => m) = Bodies.liftRes id (vMonthNew t) := Bodies.vMonth_new_eq t
 
 end ICal.C03
